@@ -20,6 +20,10 @@ func init() {
 				r.Rule("R13e", "RESTORE-SETS-CONFIG: a restore function starts from the constructor's value or stores every field the constructor stores (a restored forest must also evolve like the original)")
 				checkRestoreConfig(p, r, "R13e")
 			}},
+			{ID: "R13n", Statement: "every scalar field of a restored node record comes off the stream", Run: func(p *Program, r *Report) {
+				r.Rule("R13n", "RECORD-FIELDS-RESTORED: every scalar field (the keep flag) of the node record that the map forest's restore loop stores is computed from bytes read off the stream")
+				checkRecordFieldsRestored(p, r, "R13n", "(*MapPollard).Read", 1)
+			}},
 			{ID: "R13m", Statement: "a memoized size is reset by every method that changes the forest", Run: func(p *Program, r *Report) {
 				r.Rule("R13m", "MEMO-INVALIDATED: a struct field that memoizes a value computed from the rest of the struct is stored by every exported method that changes the struct (the predicted serialization size must describe the current forest)")
 				checkMemoInvalidated(p, r, "R13m")
